@@ -481,6 +481,13 @@ def shape_ok(case, res):
 
 
 def coq_term(case, res):
+    try:
+        return _coq_term(case, res)
+    except ValueError:          # a NaN in the implementation's output: never right
+        return "false"
+
+
+def _coq_term(case, res):
     a = common_args(case)
     slots = cslots(case, res)
     if slots is None or not shape_ok(case, res):
